@@ -333,6 +333,89 @@ func c20Extra(p *core.Program, r *core.Report) {
 			}
 		}
 	}
+	// GG3: when a permission is granted. At once (grant + Broadcast) only where the time
+	// since the last permission is known to exceed the period; otherwise, in trailing
+	// mode only, granted now and announced after the rest of the period.
+	if fn := p.Func("gogu.(*throttler).Call"); fn != nil {
+		isDelta := func(v ssa.Value) bool {
+			c, ok := v.(*ssa.Call)
+			if !ok {
+				return false
+			}
+			if path.IsCallTo(c, "time", "Since") && len(c.Call.Args) == 1 {
+				if u, ok := c.Call.Args[0].(*ssa.UnOp); ok && u.Op == token.MUL {
+					f, ok := slotOf(u.X, "throttler")
+					return ok && f == "last"
+				}
+			}
+			return false
+		}
+		isField := func(v ssa.Value, field string) bool {
+			u, ok := v.(*ssa.UnOp)
+			if !ok || u.Op != token.MUL {
+				return false
+			}
+			f, ok := slotOf(u.X, "throttler")
+			return ok && f == field
+		}
+		for _, in := range path.Instrs(fn) {
+			st, ok := in.(*ssa.Store)
+			if !ok || isAllocBase(st.Addr) {
+				continue
+			}
+			if f, ok := slotOf(st.Addr, "throttler"); !ok || f != "waiting" {
+				continue
+			}
+			if b, isC := path.BoolConst(st.Val); !isC || !b {
+				continue
+			}
+			// how is the grant announced?
+			kind := ""
+			var after *ssa.Call
+			for _, x := range st.Block().Instrs {
+				if c, ok := x.(*ssa.Call); ok {
+					if callee := c.Call.StaticCallee(); callee != nil && (callee.Name() == "Broadcast" || callee.Name() == "Signal") && callee.Signature.Recv() != nil {
+						kind = "now"
+					}
+					if path.IsCallTo(c, "time", "AfterFunc") {
+						kind = "later"
+						after = c
+					}
+				}
+			}
+			elapsed := guardedBy(fn, st.Block(), func(cd path.Cond, truth bool) bool {
+				rel := normCmp(cd.Op, truth)
+				return (rel == ">" || rel == ">=") && isDelta(cd.X) && isField(cd.Y, "duration")
+			})
+			within := guardedBy(fn, st.Block(), func(cd path.Cond, truth bool) bool {
+				rel := normCmp(cd.Op, truth)
+				return (rel == "<" || rel == "<=") && isDelta(cd.X) && isField(cd.Y, "duration")
+			})
+			okG := false
+			why := ""
+			switch kind {
+			case "now":
+				okG = elapsed
+				why = "a permission is granted and announced at once on a path where the time since the last permission is not known to exceed the period: two permissions fall into one period"
+			case "later":
+				trailing := boolGuard(fn, st.Block(), func(v ssa.Value) bool { return isField(v, "trailing") }, true)
+				okDelay := false
+				if after != nil && len(after.Call.Args) == 2 {
+					if bo, ok := after.Call.Args[0].(*ssa.BinOp); ok && bo.Op == token.SUB && isField(bo.X, "duration") && isDelta(bo.Y) {
+						okDelay = true
+					}
+				}
+				okG = within && trailing && okDelay
+				why = "a deferred permission must be granted only inside the period, only in trailing mode, and announced after the rest of the period (duration - time since the last permission)"
+			default:
+				why = "a permission is granted without being announced (neither Broadcast nor a timer in the same step)"
+			}
+			r.Obligation("GG3", okG, map[string]any{"rule": "GG3", "function": "gogu.(*throttler).Call", "what": "grant " + kind, "at": p.InstrPos(st), "ok": okG})
+			if !okG {
+				r.Violation(core.Diag{Rule: "GG3", Func: "gogu.(*throttler).Call", Object: "grant timing (" + kind + ")", Pos: p.InstrPos(st), Reason: why})
+			}
+		}
+	}
 	// CV4: who wakes the waiters. A trailing permission is granted at Call time and
 	// handed out when the period ends; that relies on no wake-up reaching a blocked
 	// Next earlier. Only Call (which schedules the wake-up for the end of the period)
@@ -421,6 +504,7 @@ func c20Extra(p *core.Program, r *core.Report) {
 	r.Floor("GG1", 2)
 	r.Floor("GG2", 2)
 	r.Floor("CV4", 2)
+	r.Floor("GG3", 2)
 	_ = fmt.Sprint
 }
 
